@@ -15,7 +15,8 @@ EXPLANATION = (
     "that flag shows it is true exactly when an argument expression of a call is entered and false whenever a statement "
     "value, comparison operand, array element, binary/unary operand, index or return value is entered; R5 the "
     "missing-address hint table and codes 513, 530-533, 538. Non-interference over all call graphs is not decided."
-    " ADDED LATER: R3-BASE-DECIDES: the mutability bit consulted for an assignment or an address-of is the one of the base of the reference (def-use); R6 the mutability analyzer visits every expression (T2); the coercion relation of C07.R5 is shared (what may silently become a pointer).")
+    " ADDED LATER: R3-BASE-DECIDES: the mutability bit consulted for an assignment or an address-of is the one of the base of the reference (def-use); R6 the mutability analyzer visits every expression (T2); the coercion relation of C07.R5 is shared (what may silently become a pointer)."
+    " ROUNDS 5-6: R7-DESLICE-TAG: ArrayByView only under a test for Slice, ArrayByPointer only under SlicePointer, at every construction site of the typer.")
 
 MU = "alpha::analyzer::mutability::"
 FC = "alpha::analyzer::function_calls::"
